@@ -153,7 +153,7 @@ def workload(ctx, lentil):
                   'zernike_compose differs from the sum of coefficient times textbook mode', desc, scale=sc)
         rtol = max(1e-6, cond * 1e-13)
         try:
-            fit = lentil.zernike_fit(opd_own, maskf, modes, normalize=normalize, **kw)
+            fit = lentil.zernike_fit(gen.layout(rng, opd_own), gen.layout(rng, maskf), modes, normalize=normalize, **kw)
             ctx.close('fit=coeffs', np.asarray(fit, float), coeffs, rtol, 'fit|coeffs',
                       'fitting a composed OPD does not return its coefficients', desc, scale=float(np.abs(coeffs).max()))
         except Exception as e:
@@ -199,7 +199,7 @@ def workload(ctx, lentil):
         noise = rng.normal(size=shape) * 1e-8 * mask
         opd = np.tensordot(coeffs, Bn, axes=1) + noise
         try:
-            res = np.asarray(lentil.zernike_remove(opd, maskf, modes, **kw), float)
+            res = np.asarray(lentil.zernike_remove(gen.layout(rng, opd), gen.layout(rng, maskf), modes, **kw), float)
         except Exception as e:
             ctx.check(False, 'remove=lstsq', f'remove|raises={type(e).__name__}', str(e), desc)
             continue
